@@ -75,7 +75,7 @@ def bounds(tier):
 def plan(tier, seed):
     parts = 4 if tier == 'quick' else 16
     return [{'k': 'plid', 'part': p, 'parts': parts, 'tier': tier} for p in range(parts)] + \
-        [{'k': 'bmc', 'tier': tier}, {'k': 'id', 'tier': tier}, {'k': 'src'}, {'k': 'srcx'}, {'k': 'perm', 'tier': tier}, {'k': 'subproc'}]
+        [{'k': 'bmc', 'tier': tier}, {'k': 'id', 'tier': tier}, {'k': 'id_junk'}, {'k': 'src'}, {'k': 'srcx'}, {'k': 'perm', 'tier': tier}, {'k': 'subproc'}]
 
 
 def build(d, entries=None):
@@ -108,6 +108,10 @@ def eval_case(case, d=None):
         with tempfile.TemporaryDirectory(prefix='c10_', dir=clidrv.scratch_root()) as dd:
             entries = DIR if 'files' not in case else [DIR[i] for i in case['files']]
             build(dd, entries)
+            for name, kind in case.get('junk', []):
+                with open(os.path.join(dd, name), 'wb') as f:
+                    f.write({'json': b'{\n    "Private Header": {}\n}\n', 'empty': b'', 'random': bytes(range(7, 90)),
+                             'truncated': pelgen.encode_pel(pelgen.pel_from_spec(DIR[0][1]))[:60]}[kind])
             return eval_case(case, dd)
     entries = DIR if 'files' not in case else [DIR[i] for i in case['files']]
     q, arg = case['q'], case['arg']
@@ -181,7 +185,7 @@ def eval_case(case, d=None):
             cands = [m['eid'] for _, _, m in entries if str(m['obmc']) == arg]
         else:
             v = int(arg, 16)
-            cands = [m['eid'] for name, _, m in entries if ('%08X' % v) in name]
+            cands = [m['eid'] for name, _, m in entries if ('%08X' % v) in name]     # junk files are not PELs
         LAST['n'] = len(cands)
         text = r.stdout.strip()
         if not cands:
@@ -205,6 +209,8 @@ LAST = {'n': 0}
 def _do(res, d, case, step=97):
     LAST['n'] = 0
     vs = eval_case(case, d)
+    if case.get('junk'):
+        LAST['n'] += 1
     res.case(nontrivial_key=json.dumps(case) if LAST['n'] else None, outcome=vs[0]['key'] if vs else 'ok:%s:%d' % (case['q'], min(LAST['n'], 2)),
              sample=case if res.evals % step == 1 else None)
     res.add(vs)
@@ -251,6 +257,21 @@ def run_chunk(chunk):
                 _do(res, d, {'q': 'id', 'arg': '%08X' % v})
             for s in ('1', '123456789'):
                 _do(res, d, {'q': 'id', 'arg': s, 'malformed': True})
+        elif k == 'id_junk':
+            # files that are not PELs but carry an entry id in their name (the *.json files an earlier --json run leaves
+            # next to the PELs, damaged or empty logs): they are not "the PEL stored under entry id E"
+            files = [0, 1, 12]
+            for kind in ('json', 'empty', 'random', 'truncated'):
+                for order in ('sorted', 'reversed'):
+                    for i in files:
+                        name, _, m = DIR[i]
+                        e = '%08X' % m['eid']
+                        # next to the PEL of that id, sorting after it and before it
+                        for jn in (name + '.' + e + '.json', '0' + name + '.' + e + '.json'):
+                            _do(res, None, {'q': 'id', 'arg': e, 'order': order, 'files': files, 'junk': [[jn, kind]]})
+                        # an id that only the junk file carries
+                        _do(res, None, {'q': 'id', 'arg': '7000000A', 'order': order, 'files': files,
+                                        'junk': [['20230715_7000000A' + ('.json' if kind == 'json' else ''), kind]]})
         elif k == 'src':
             subs = set()
             for c in CODES:
